@@ -460,6 +460,22 @@ theorem program_abs (tabs : List Ext) (ht : ∀ t ∈ tabs, Inv t) (p : Prog) :
       rw [← ih2]
       simp [touch_abs e hI.1]
 
+  | seq p q ihp ihq =>
+    obtain ⟨_, p2⟩ := ihp
+    obtain ⟨q1, q2⟩ := ihq
+    simp only [Prog.evalExt, Prog.evalSpec]
+    cases hp : p.evalExt tabs with
+    | none =>
+      rw [hp] at p2
+      cases hsp : p.evalSpec (tabs.map Ext.abs) with
+      | none => simp
+      | some x => rw [hsp] at p2; simp at p2
+    | some a =>
+      rw [hp] at p2
+      cases hsp : p.evalSpec (tabs.map Ext.abs) with
+      | none => rw [hsp] at p2; simp at p2
+      | some x => simp only [Option.bind_some]; exact ⟨q1, q2⟩
+
 /-- **C04.program_bytes** — for every finite program of selections (all index forms),
 binary and n-ary concatenations and in-between writes applied to tables that satisfy the
 invariant, the bytes handed to the writer are exactly the concatenation of the selected records'
